@@ -378,3 +378,187 @@ Proof.
   destruct Hw as (w & x & -> & Hw). unfold word in Hw. destruct w as [|c w]; [discriminate|]. cbn [negb andb forallb] in Hw.
   apply andb_true_iff in Hw as [Hc _]. cbn [app]. rewrite peek_lit_cons. revert Hc. ascii_cases c; cbn; congruence.
 Qed.
+
+(* ------------------------------------------------------------------ the parser on any layout *)
+Lemma in_sum_le4 (k : ftree) ks : In k ks -> fsize k <= list_sum (map fsize ks).
+Proof.
+  induction ks as [|x ks IH]; intros H; [destruct H|]. cbn [map list_sum fold_right]. destruct H as [-> | H]; [lia|].
+  specialize (IH H). unfold list_sum in IH. lia.
+Qed.
+
+Lemma brace_not_word : is_word "{"%char = false. Proof. reflexivity. Qed.
+Lemma colon_not_word : is_word ":"%char = false. Proof. reflexivity. Qed.
+
+Theorem parse_ftext t : forall fuel rest d,
+  wf_ftree t = true -> fdecl t = Some d -> fsize t <= fuel ->
+  parse_decl fuel (lstrip (ftext t ++ rest)) = Some (d, lstrip rest).
+Proof.
+  induction t as [tyw g1 name dims g2|sq kw g1 g2 kids g3 name g4 IH|kw g1 g2 akw g3 g4 a mkw g5 g6 maps g7 name g8 IHa IHm]
+    using ftree_ind2; intros fuel rest d Hw Hd Hf.
+  - (* base *)
+    rewrite (lstrip_id _ (ftext_starts _ rest Hw)). destruct fuel as [|f]; [cbn in Hf; lia|].
+    pose proof Hw as Hw'. cbn [wf_ftree] in Hw'.
+    apply andb_true_iff in Hw' as [Hw' _]. apply andb_true_iff in Hw' as [Hw' _]. apply andb_true_iff in Hw' as [Hw' _].
+    apply andb_true_iff in Hw' as [Hw' Hg1n]. apply andb_true_iff in Hw' as [Hw' Hg1]. apply andb_true_iff in Hw' as [Hword Hty].
+    destruct (type_of tyw) as [ty|] eqn:Ety; [|discriminate].
+    assert (Hkw : keyword (ftext (FBase tyw g1 name dims g2) ++ rest) = l2s (map lower tyw)).
+    { cbn [ftext]. rewrite <- !app_assoc. destruct g1 as [|x g1]; [discriminate|]. cbn [app].
+      apply keyword_word; [exact Hword|]. unfold gap in Hg1. cbn [forallb] in Hg1. apply andb_true_iff in Hg1 as [Hx _]. apply space_not_word, Hx. }
+    destruct (type_of_not_container tyw ty Ety) as [N1 N2].
+    cbn [parse_decl]. rewrite Hkw, N1, N2. cbv iota.
+    apply parse_fbase; [exact Hw|exact Hd|cbn [fsize] in Hf; lia].
+  - (* Structure / Sequence *)
+    rewrite (lstrip_id _ (ftext_starts _ rest Hw)). destruct fuel as [|f]; [cbn in Hf; lia|].
+    cbn [wf_ftree] in Hw.
+    apply andb_true_iff in Hw as [Hw Hg4]. apply andb_true_iff in Hw as [Hw Hname]. apply andb_true_iff in Hw as [Hw Hg3].
+    apply andb_true_iff in Hw as [Hw Hkids]. apply andb_true_iff in Hw as [Hw Hg2]. apply andb_true_iff in Hw as [Hw Hg1].
+    apply andb_true_iff in Hw as [Hword Hsp].
+    cbn [fdecl] in Hd.
+    destruct ((fix go (l : list ftree) : option (list dtree) :=
+                 match l with [] => Some [] | x :: r => match fdecl x, go r with Some y, Some ys => Some (y :: ys) | _, _ => None end end) kids)
+      as [ks|] eqn:Eks; [|discriminate].
+    injection Hd as <-. destruct (fdecl_list kids ks Eks) as [-> Hall].
+    cbn [ftext fsize] in *. repeat (progress (rewrite <- ?app_assoc; cbn [app])).
+    set (K := if sq then "sequence"%string else "structure"%string) in *.
+    assert (Hkw : keyword (kw ++ g1 ++ "{"%char :: g2 ++ flat_map ftext kids ++ "}"%char :: g3 ++ name ++ ";"%char :: g4 ++ rest) = K)
+      by (apply keyword_spelled; [exact Hword|exact Hsp|exact Hg1|apply brace_not_word]).
+    cbn [parse_decl]. rewrite Hkw.
+    assert (Hsel : String.eqb K "structure" || String.eqb K "sequence" = true) by (unfold K; destruct sq; reflexivity).
+    rewrite Hsel. cbv iota.
+    rewrite (consume_lit_spelled K kw g1 _ Hsp Hg1). cbn [obind].
+    change (lstrip ("{"%char :: ?X)) with ("{"%char :: X).
+    rewrite (consume_char "{"%char g2 _ Hg2). cbn [obind].
+    rewrite (until_brace_gen (parse_decl f) ftext fres kids f ("}"%char :: g3 ++ name ++ ";"%char :: g4 ++ rest)).
+    + cbn [obind fst snd]. change (lstrip ("}"%char :: ?X)) with ("}"%char :: X).
+      rewrite (ftail name g3 g4 rest Hg3 Hname Hg4). cbn [obind fst snd]. unfold K. destruct sq; reflexivity.
+    + intros x r Hin. rewrite Forall_forall in IH. apply IH; [exact Hin| |apply Hall, Hin|].
+      * rewrite forallb_forall in Hkids. apply Hkids, Hin.
+      * pose proof (in_sum_le4 x kids Hin). lia.
+    + intros x r Hin. apply ftext_not_brace. rewrite forallb_forall in Hkids. apply Hkids, Hin.
+    + reflexivity.
+    + lia.
+  - (* Grid *)
+    rewrite (lstrip_id _ (ftext_starts _ rest Hw)). destruct fuel as [|f]; [cbn in Hf; lia|].
+    cbn [wf_ftree] in Hw.
+    apply andb_true_iff in Hw as [Hw Hg8]. apply andb_true_iff in Hw as [Hw Hname]. apply andb_true_iff in Hw as [Hw Hg7].
+    apply andb_true_iff in Hw as [Hw Hwm]. apply andb_true_iff in Hw as [Hw Hbm]. apply andb_true_iff in Hw as [Hw Hg6].
+    apply andb_true_iff in Hw as [Hw Hg5]. apply andb_true_iff in Hw as [Hw Hmsp]. apply andb_true_iff in Hw as [Hw Hmw].
+    apply andb_true_iff in Hw as [Hw Hwa]. apply andb_true_iff in Hw as [Hw Hba]. apply andb_true_iff in Hw as [Hw Hg4].
+    apply andb_true_iff in Hw as [Hw Hg3]. apply andb_true_iff in Hw as [Hw Hasp]. apply andb_true_iff in Hw as [Hw Haw].
+    apply andb_true_iff in Hw as [Hw Hg2]. apply andb_true_iff in Hw as [Hw Hg1]. apply andb_true_iff in Hw as [Hword Hsp].
+    cbn [fdecl] in Hd. destruct (fdecl a) as [da|] eqn:Eda; [|discriminate].
+    destruct ((fix go (l : list ftree) : option (list dtree) :=
+                 match l with [] => Some [] | x :: r => match fdecl x, go r with Some y, Some ys => Some (y :: ys) | _, _ => None end end) maps)
+      as [ms|] eqn:Ems; [|discriminate].
+    injection Hd as <-. destruct (fdecl_list maps ms Ems) as [-> Hall].
+    cbn [ftext fsize] in *. repeat (progress (rewrite <- ?app_assoc; cbn [app])).
+    assert (Hkw : keyword (kw ++ g1 ++ "{"%char :: g2 ++ akw ++ g3 ++ ":"%char :: g4 ++ ftext a ++ mkw ++ g5 ++ ":"%char :: g6 ++
+                           flat_map ftext maps ++ "}"%char :: g7 ++ name ++ ";"%char :: g8 ++ rest) = "grid"%string)
+      by (apply keyword_spelled; [exact Hword|exact Hsp|exact Hg1|apply brace_not_word]).
+    cbn [parse_decl]. rewrite Hkw. cbv iota. change (String.eqb "grid" "structure" || String.eqb "grid" "sequence") with false.
+    change (String.eqb "grid" "grid") with true. cbv iota.
+    rewrite (consume_lit_spelled "grid" kw g1 _ Hsp Hg1). cbn [obind]. change (lstrip ("{"%char :: ?X)) with ("{"%char :: X).
+    rewrite (consume_char "{"%char g2 _ Hg2). cbn [obind].
+    rewrite (lstrip_id _ (word_starts akw _ Haw)).
+    rewrite (consume_lit_spelled "array" akw g3 _ Hasp Hg3). cbn [obind]. change (lstrip (":"%char :: ?X)) with (":"%char :: X).
+    rewrite (consume_char ":"%char g4 _ Hg4). cbn [obind].
+    destruct a as [atw ag1 an adims ag2| |]; try discriminate Hba.
+    rewrite (lstrip_id _ (ftext_starts _ _ Hwa)).
+    rewrite (parse_fbase atw ag1 an adims ag2 f _ da Hwa Eda) by (cbn [fsize] in Hf; lia).
+    cbn [obind fst snd]. rewrite (lstrip_id _ (word_starts mkw _ Hmw)).
+    rewrite (consume_lit_spelled "maps" mkw g5 _ Hmsp Hg5). cbn [obind]. change (lstrip (":"%char :: ?X)) with (":"%char :: X).
+    rewrite (consume_char ":"%char g6 _ Hg6). cbn [obind].
+    rewrite (until_brace_gen (parse_base f) ftext fres maps f ("}"%char :: g7 ++ name ++ ";"%char :: g8 ++ rest)).
+    + cbn [obind fst snd]. change (lstrip ("}"%char :: ?X)) with ("}"%char :: X).
+      rewrite (ftail name g7 g8 rest Hg7 Hname Hg8). reflexivity.
+    + intros x r Hin. rewrite forallb_forall in Hbm, Hwm. specialize (Hbm x Hin). specialize (Hwm x Hin).
+      destruct x as [xt xg1 xn xd xg2| |]; try discriminate Hbm.
+      rewrite (lstrip_id _ (ftext_starts _ r Hwm)).
+      apply parse_fbase; [exact Hwm|apply Hall, Hin|].
+      pose proof (in_sum_le4 _ maps Hin) as Hle. cbn [fsize] in Hle. lia.
+    + intros x r Hin. apply ftext_not_brace. rewrite forallb_forall in Hwm. apply Hwm, Hin.
+    + reflexivity.
+    + lia.
+Qed.
+
+(* ------------------------------------------------------------------ the whole document *)
+Definition fdataset_text (kw g1 g2 : chars) (kids : list ftree) (g3 name g4 trailing : chars) : chars :=
+  kw ++ g1 ++ "{"%char :: g2 ++ flat_map ftext kids ++ "}"%char :: g3 ++ name ++ ";"%char :: g4 ++ trailing.
+
+Lemma word_len w : word w = true -> 1 <= List.length w.
+Proof. unfold word. destruct w; [discriminate|cbn; lia]. Qed.
+
+Lemma fdims_len dims : List.length dims <= List.length (flat_map fdim_text dims).
+Proof. induction dims as [|d dims IH]; [cbn; lia|]. cbn [flat_map]. rewrite app_length. unfold fdim_text at 1. cbn [List.length]. lia. Qed.
+
+Lemma fsum_le (ks : list ftree) :
+  Forall (fun k => fsize k + 1 <= List.length (ftext k)) ks ->
+  List.length ks + list_sum (map fsize ks) <= List.length (flat_map ftext ks).
+Proof.
+  induction 1 as [|k ks Hk _ IH]; [cbn; lia|]. cbn [flat_map map list_sum fold_right List.length]. rewrite app_length. unfold list_sum in IH. lia.
+Qed.
+
+Lemma fsize_le_length t : wf_ftree t = true -> fsize t + 1 <= List.length (ftext t).
+Proof.
+  induction t as [tyw g1 name dims g2|sq kw g1 g2 kids g3 name g4 IH|kw g1 g2 akw g3 g4 a mkw g5 g6 maps g7 name g8 IHa IHm]
+    using ftree_ind2; intros Hw; cbn [wf_ftree] in Hw.
+  - apply andb_true_iff in Hw as [Hw _]. apply andb_true_iff in Hw as [Hw _]. apply andb_true_iff in Hw as [Hw Hname].
+    apply andb_true_iff in Hw as [Hw Hg1n]. apply andb_true_iff in Hw as [Hw _]. apply andb_true_iff in Hw as [Hword _].
+    cbn [fsize ftext]. rewrite !app_length. cbn [List.length]. pose proof (word_len tyw Hword). pose proof (fdims_len dims).
+    unfold basename_ok in Hname. destruct name; [discriminate|]. destruct g1; [discriminate|]. cbn [List.length]. lia.
+  - apply andb_true_iff in Hw as [Hw _]. apply andb_true_iff in Hw as [Hw _]. apply andb_true_iff in Hw as [Hw _].
+    apply andb_true_iff in Hw as [Hw Hkids]. apply andb_true_iff in Hw as [Hw _]. apply andb_true_iff in Hw as [Hw _].
+    apply andb_true_iff in Hw as [Hword _].
+    cbn [fsize ftext]. rewrite !app_length. cbn [List.length]. rewrite !app_length. cbn [List.length]. rewrite !app_length. cbn [List.length].
+    pose proof (word_len kw Hword).
+    assert (Hf : Forall (fun k => fsize k + 1 <= List.length (ftext k)) kids).
+    { apply Forall_forall. intros k Hk. rewrite Forall_forall in IH. apply IH; [exact Hk|]. rewrite forallb_forall in Hkids. apply Hkids, Hk. }
+    pose proof (fsum_le kids Hf). lia.
+  - apply andb_true_iff in Hw as [Hw _]. apply andb_true_iff in Hw as [Hw _]. apply andb_true_iff in Hw as [Hw _].
+    apply andb_true_iff in Hw as [Hw Hwm]. apply andb_true_iff in Hw as [Hw _]. apply andb_true_iff in Hw as [Hw _].
+    apply andb_true_iff in Hw as [Hw _]. apply andb_true_iff in Hw as [Hw _]. apply andb_true_iff in Hw as [Hw _].
+    apply andb_true_iff in Hw as [Hw Hwa]. apply andb_true_iff in Hw as [Hw _]. apply andb_true_iff in Hw as [Hw _].
+    apply andb_true_iff in Hw as [Hw _]. apply andb_true_iff in Hw as [Hw _]. apply andb_true_iff in Hw as [Hw _].
+    apply andb_true_iff in Hw as [Hw _]. apply andb_true_iff in Hw as [Hw _]. apply andb_true_iff in Hw as [Hword _].
+    cbn [fsize ftext]. repeat (rewrite !app_length; cbn [List.length]).
+    pose proof (word_len kw Hword). specialize (IHa Hwa).
+    assert (Hf : Forall (fun k => fsize k + 1 <= List.length (ftext k)) maps).
+    { apply Forall_forall. intros k Hk. rewrite Forall_forall in IHm. apply IHm; [exact Hk|]. rewrite forallb_forall in Hwm. apply Hwm, Hk. }
+    pose proof (fsum_le maps Hf). lia.
+Qed.
+
+Theorem parse_fdataset kw g1 g2 kids g3 name g4 trailing ks :
+  word kw = true -> spells kw "dataset" = true -> gap g1 = true -> gap g2 = true -> forallb wf_ftree kids = true ->
+  gap g3 = true -> contname_ok name = true -> gap g4 = true ->
+  omapl fdecl kids = Some ks ->
+  parse_dataset (fdataset_text kw g1 g2 kids g3 name g4 trailing) = Some (quote name, ks).
+Proof.
+  intros Hword Hsp Hg1 Hg2 Hkids Hg3 Hname Hg4 Hks.
+  assert (Hall : ks = map fres kids /\ forall k, In k kids -> fdecl k = Some (fres k)).
+  { clear -Hks. revert ks Hks. induction kids as [|k kids IH]; intros ks H; cbn [omapl] in H.
+    - injection H as <-. split; [reflexivity|intros k []].
+    - destruct (fdecl k) as [y|] eqn:Ek; [|discriminate]. destruct (omapl fdecl kids) as [ys|] eqn:Ey; [|discriminate].
+      injection H as <-. destruct (IH ys eq_refl) as [-> Hall]. split.
+      + cbn [map]. f_equal. unfold fres. rewrite Ek. reflexivity.
+      + intros x [E | Hx]; [subst x; unfold fres; rewrite Ek; reflexivity|apply Hall, Hx]. }
+  destruct Hall as [-> Hall].
+  unfold parse_dataset, parse_dataset_fuel, fdataset_text.
+  set (fuel := S (List.length (kw ++ g1 ++ "{"%char :: g2 ++ flat_map ftext kids ++ "}"%char :: g3 ++ name ++ ";"%char :: g4 ++ trailing))).
+  rewrite (consume_lit_spelled "dataset" kw g1 _ Hsp Hg1). cbn [obind]. change (lstrip ("{"%char :: ?X)) with ("{"%char :: X).
+  rewrite (consume_char "{"%char g2 _ Hg2). cbn [obind].
+  rewrite (until_brace_gen (parse_decl fuel) ftext fres kids fuel ("}"%char :: g3 ++ name ++ ";"%char :: g4 ++ trailing)).
+  - cbn [obind fst snd]. change (lstrip ("}"%char :: ?X)) with ("}"%char :: X).
+    rewrite (ftail name g3 g4 trailing Hg3 Hname Hg4). reflexivity.
+  - intros x r Hin. apply parse_ftext; [rewrite forallb_forall in Hkids; apply Hkids, Hin|apply Hall, Hin|].
+    assert (Hx : fsize x + 1 <= List.length (ftext x)) by (apply fsize_le_length; rewrite forallb_forall in Hkids; apply Hkids, Hin).
+    assert (Hl : List.length (ftext x) <= List.length (flat_map ftext kids)).
+    { clear -Hin. induction kids as [|k kids IH]; [destruct Hin|]. cbn [flat_map]. rewrite app_length. destruct Hin as [-> | Hin]; [lia|].
+      specialize (IH Hin). lia. }
+    unfold fuel. rewrite !app_length. cbn [List.length]. rewrite !app_length. lia.
+  - intros x r Hin. apply ftext_not_brace. rewrite forallb_forall in Hkids. apply Hkids, Hin.
+  - reflexivity.
+  - unfold fuel. rewrite !app_length. cbn [List.length]. rewrite !app_length.
+    assert (Hf : Forall (fun k => fsize k + 1 <= List.length (ftext k)) kids).
+    { apply Forall_forall. intros k Hk. apply fsize_le_length. rewrite forallb_forall in Hkids. apply Hkids, Hk. }
+    pose proof (fsum_le kids Hf). lia.
+Qed.
